@@ -608,7 +608,14 @@ func genC12(r *Run) {
 	}
 	for _, entry := range []int{eTimedV4, eTimedV6} {
 		for _, tau := range taus {
+			ns := []int{}
 			for n := 0; n <= maxN; n++ {
+				ns = append(ns, n)
+			}
+			if tau == 1 {
+				ns = append(ns, 9, 10, 12, 13) // doubling goes on: 2^12 T between the last two of 13 tries
+			}
+			for _, n := range ns {
 				if tau == 5000 && n > 4 && !r.Thorough() {
 					continue
 				}
